@@ -6,7 +6,7 @@
 # so /repo itself, /verif/evidence and /verif/replays are never touched by a trial.
 PATCH="$(readlink -f "$1")"; TIER="$2"; shift 2
 V="$(dirname "$(dirname "$(readlink -f "$0")")")"
-T=/tmp/trial
+T=${TRIAL_DIR:-/tmp/trial}
 mkdir -p $T
 if [ ! -d $T/repo/.git ] && [ ! -f $T/repo/.git ]; then git -C /repo worktree add -q --detach $T/repo HEAD || exit 9; fi
 git -C $T/repo checkout -q --detach "$(git -C /repo rev-parse HEAD)" && git -C $T/repo checkout -- . && git -C $T/repo clean -fdq
